@@ -1,7 +1,7 @@
 """C15 - serializer combinators round-trip every value they accept (Engine B: CrossHair + builtin models)."""
 from .. import common
 from ..eb import runner
-from ._codec_common import C, HF, validate_models
+from ._codec_common import C, HF, H16, validate_models
 
 FILES = ["cspuz/problem_serializer.py"]
 
@@ -38,6 +38,9 @@ def conditions(tier):
     for (h, w) in rshapes:
         cs.append(C(HF, "Rooms", "h_text", h, w, l=2 if q else 3, t=T, key="h_text:Rooms:" + ("1xN" if min(h, w) == 1 else "HxW")))
         cs.append(C(HF, "ValuedRooms", "h_text", h, w, l=(2 if h * w >= 3 else 3) if q else 4, t=2 * T, key="h_text:ValuedRooms:" + ("1xN" if min(h, w) == 1 else "HxW")))
+    # value side for room partitions: symbolic room label per cell, decoded rooms compared with independently computed components
+    for (h, w) in ([(2, 3), (3, 2)] if q else [(2, 3), (3, 2), (1, 3), (2, 2)]):
+        cs.append(C(H16, "lits", "h_rooms_codec", h, w, t=4 * T, VERIF_LMAX=1, key="rooms-value:" + ("1xN" if min(h, w) == 1 else "HxW")))
     # a room codec that does not start at offset 0 of the text; a grid codec object used for another board size before
     for (h, w) in ([(1, 2), (2, 2)] if q else [(1, 2), (2, 1), (2, 2), (1, 3)]):
         cs.append(C(HF, "Tupl_Hex_VRooms", "h_text", h, w, l=4, t=3 * T))
